@@ -57,6 +57,7 @@ type Parser struct {
 	errorRecovery *ErrorRecovery
 	currentToken  Token
 	input         string
+	mrDepth       int // current nesting depth of the MATCH_RECOGNIZE pattern parser
 }
 
 func NewParser(input string) *Parser {
